@@ -264,6 +264,9 @@ func runQueueCase(t *testing.T, r *rep.Reporter, c *rep.Case, ci int) {
 		if ch.Annotated {
 			ann = "annotated"
 		}
+		if ch.BareGoSMTP {
+			ann = "plain-go-smtp-error"
+		}
 		judged++
 		r.Count("queue_records_"+where, 1)
 		r.Count("queue_records_"+ch.Group, 1)
@@ -328,8 +331,12 @@ func runQueueCase(t *testing.T, r *rep.Reporter, c *rep.Case, ci int) {
 				}
 			}
 			if att.Commit != "" && att.Commit != mx.OK {
+				// a failing Commit is the last error only of recipients without a
+				// failure of their own in this attempt (queue fix a330894)
 				for a := range acc {
-					last[a] = fate{get(att.Attempt, mx.StCommit, ""), mx.StCommit, att.Attempt}
+					if _, has := last[a]; !has {
+						last[a] = fate{get(att.Attempt, mx.StCommit, ""), mx.StCommit, att.Attempt}
+					}
 				}
 			}
 		}
